@@ -108,9 +108,11 @@ theorem state_reflects_jobs (jc : JobConfig) (rjs : List Job) :
 
 /-! ## clause 3: the maxima, one sync -/
 
-/-- after a sync, `lastScheduled` is at least the schedule time of every listed Job (annotation
-parsed by `Atoi`; instants at or before Go's zero time are ignored by the code) -/
-theorem lastScheduled_ge_all (jc : JobConfig) (rjs : List Job) (j : Job) (t : Int)
+/-- after a sync, `lastScheduled` is at least the schedule time of every LISTED Job, i.e. of every
+Job that is in the Job cache when the sync runs (annotation parsed by `Atoi`; instants at or before
+Go's zero time are ignored by the code).  Nothing is said about Jobs that are not in `rjs`: the
+property's "any of its Jobs" is covered only as far as `maxima_cover_observed_partial` goes. -/
+theorem lastScheduled_ge_listed (jc : JobConfig) (rjs : List Job) (j : Job) (t : Int)
     (hj : j ∈ rjs) (ht : labelScheduleTime j = some t) (hz : zeroUnix < t) :
     optLe (some t) (computeStatus jc rjs).lastScheduled := by
   rw [computeStatus_lastScheduled, getLastScheduleTime_eq]
@@ -122,8 +124,9 @@ theorem lastScheduled_monotone (jc : JobConfig) (rjs : List Job) :
     optLe jc.status.lastScheduled (computeStatus jc rjs).lastScheduled := by
   rw [computeStatus_lastScheduled]; exact bump_ge_old _ _
 
-/-- after a sync, `lastExecuted` is at least the start time of every listed started Job -/
-theorem lastExecuted_ge_all (jc : JobConfig) (rjs : List Job) (j : Job) (t : Int)
+/-- after a sync, `lastExecuted` is at least the start time of every LISTED started Job (same
+restriction as `lastScheduled_ge_listed`) -/
+theorem lastExecuted_ge_listed (jc : JobConfig) (rjs : List Job) (j : Job) (t : Int)
     (hj : j ∈ rjs) (ht : j.startTime = some t) (hz : zeroUnix < t) :
     optLe (some t) (computeStatus jc rjs).lastExecuted := by
   rw [computeStatus_lastExecuted, getLastStartTime_eq]
@@ -279,9 +282,9 @@ theorem maxima_survive_deletion_prefix (jc : JobConfig) (pre post : List (List J
   rw [happ]
   exact maxima_survive_deletion _ _
 
-/-- a sync that completes covers what it listed: right after it the API value is at least the
-schedule time of every Job in its listing -/
-theorem freshSync_covers (jc : JobConfig) (cache : List Job) (j : Job) (t : Int)
+/-- a sync that completes covers what it LISTED: right after it the API value is at least the
+schedule time of every Job in its listing (and of no Job outside it) -/
+theorem freshSync_covers_listed (jc : JobConfig) (cache : List Job) (j : Job) (t : Int)
     (hj : j ∈ listJobs cache jc) (ht : labelScheduleTime j = some t) (hz : zeroUnix < t) :
     optLe (some t) (freshSync jc cache).status.lastScheduled := by
   unfold freshSync syncCore
@@ -290,13 +293,22 @@ theorem freshSync_covers (jc : JobConfig) (cache : List Job) (j : Job) (t : Int)
   · rename_i heq
     simp only [Option.getD_some]
     rw [← heq]
-    exact lastScheduled_ge_all jc _ j t hj ht hz
+    exact lastScheduled_ge_listed jc _ j t hj ht hz
   · simp only [writeStatus, bne_self_eq_false, Bool.and_false, Bool.false_eq_true, ↓reduceIte, Option.getD_some]
-    exact lastScheduled_ge_all jc _ j t hj ht hz
+    exact lastScheduled_ge_listed jc _ j t hj ht hz
 
-/-- … and keeps covering it for ever, also after the Job has been deleted: any Job listed by
-some sync of the history is covered by the final value -/
-theorem maxima_cover_observed (jc : JobConfig) (pre post : List (List Job)) (cache : List Job)
+/-- … and keeps covering it for ever, also after the Job has been deleted: any Job LISTED BY SOME
+SYNC of the history is covered by the final value.
+
+PARTIAL with respect to the property's clause "at least the latest schedule time of ANY of its
+Jobs, even after those Jobs are deleted": the hypothesis `hj` (the Job was in the Job cache at a
+completed sync — envelope `E-JobObservedBeforeGone`) cannot be dropped.  A Job that is created and
+deleted between two syncs of its JobConfig (both events reach the cache while the key waits in
+the work queue, or the controller restarts in between) is never in any listing, and the status
+stays below its schedule time for ever: `job_never_observed_witness` (known finding F33;
+`Compose.unobserved_job_rerequested_witness` shows the schedule time being requested again after a
+restart). -/
+theorem maxima_cover_observed_partial (jc : JobConfig) (pre post : List (List Job)) (cache : List Job)
     (j : Job) (t : Int) (hj : j ∈ listJobs cache (runFresh jc pre))
     (ht : labelScheduleTime j = some t) (hz : zeroUnix < t) :
     optLe (some t) (runFresh jc (pre ++ cache :: post)).status.lastScheduled := by
@@ -308,7 +320,7 @@ theorem maxima_cover_observed (jc : JobConfig) (pre post : List (List Job)) (cac
     | cons c rest ih => exact ih (freshSync jc c)
   rw [happ]
   show optLe (some t) (runFresh (freshSync (runFresh jc pre) cache) post).status.lastScheduled
-  exact optLe_trans (freshSync_covers _ cache j t hj ht hz) (maxima_survive_deletion _ post).1
+  exact optLe_trans (freshSync_covers_listed _ cache j t hj ht hz) (maxima_survive_deletion _ post).1
 
 /-! ### stale reads: the JobConfig cache may lag behind the controller's own writes -/
 
@@ -435,6 +447,114 @@ theorem stale_read_regression_witness :
   subst hv
   exact ⟨Nat.le_refl _, fun _ => rfl⟩
 
+/-! ## F33: the clause "… of ANY of its Jobs, even after those Jobs are deleted", with ground truth
+
+A history model that — unlike `runFresh` / `runSys`, whose Job caches are arbitrary — knows which
+Jobs exist: the server's Jobs, the Job informer (undelivered events, then the cache, then the
+handler that enqueues the JobConfig's key), the work queue (one key) and every Job that ever
+existed.  The JobConfig cache is taken to be fresh (`freshSync`); a sync that writes the status
+triggers its own JobConfig update event, which enqueues the key once more. -/
+
+structure World where
+  /-- the JobConfig on the server -/
+  api : JobConfig
+  /-- the Jobs on the server -/
+  jobs : List Job := []
+  /-- undelivered Job watch events, oldest first -/
+  pending : List (EvKind × Job) := []
+  /-- the controller's Job cache -/
+  cache : List Job := []
+  /-- the JobConfig's key is in the work queue -/
+  queued : Bool := false
+  /-- ground truth: every Job that ever existed on the server -/
+  ever : List Job := []
+deriving DecidableEq
+
+inductive WAct where
+  /-- a Job appears on the server (cron controller, user) -/
+  | create (j : Job)
+  /-- a Job disappears from the server (user, TTL after finishing) -/
+  | delete (name : String)
+  /-- the informer applies the oldest event to the cache and runs the handler -/
+  | deliver
+  /-- a worker takes the key (if queued) and runs `SyncOne` -/
+  | sync
+  /-- the controller process restarts: undelivered notifications are lost, the new process lists
+  the server's Jobs and enqueues every JobConfig -/
+  | restart
+
+def wStep (w : World) : WAct → World
+  | .create j =>
+    { w with jobs := j :: w.jobs, pending := w.pending ++ [(.add, j)], ever := j :: w.ever }
+  | .delete n =>
+    match w.jobs.find? (fun j => j.name == n) with
+    | none => w
+    | some j => { w with jobs := w.jobs.filter (fun x => x.name != n), pending := w.pending ++ [(.delete, j)] }
+  | .deliver =>
+    match w.pending with
+    | [] => w
+    | (k, j) :: rest =>
+      let others := w.cache.filter (fun x => x.name != j.name)
+      { w with pending := rest,
+               cache := if k == .delete then others else j :: others,
+               queued := w.queued || (onJobEvent k [w.api] j).isSome }
+  | .sync =>
+    if w.queued then
+      let api' := freshSync w.api w.cache
+      { w with api := api', queued := decide (api' ≠ w.api) }
+    else w
+  | .restart => { w with pending := [], cache := w.jobs, queued := true }
+
+def wRun (w : World) : List WAct → World
+  | [] => w
+  | a :: rest => wRun (wStep w a) rest
+
+/-- everything delivered, nothing queued -/
+def World.quiet (w : World) : Bool := w.pending.isEmpty && !w.queued
+
+def f33JC : JobConfig := witnessJC
+/-- scheduled at 1000, observed -/
+def f33J1 : Job := witnessJob
+/-- scheduled at 1010, created and deleted between two syncs -/
+def f33J2 : Job := { witnessJob with name := "j2", uid := "job-3", created := 1010, schedAnn := some "1010" }
+
+/-- `j1` is created, delivered and counted (the second sync is the no-op that follows the
+controller's own status write); `j2` is created and deleted, both events are delivered while the
+key waits for a worker; the sync lists `j1` only -/
+def f33Hist : List WAct :=
+  [.create f33J1, .deliver, .sync, .sync, .create f33J2, .delete "j2", .deliver, .deliver, .sync, .sync]
+
+/-- the same with one sync between the two deliveries: `j2` is observed before it is gone -/
+def f33HistObserved : List WAct :=
+  [.create f33J1, .deliver, .sync, .sync, .create f33J2, .deliver, .sync, .sync, .delete "j2", .deliver, .sync, .sync]
+
+/-- the state `f33Hist` ends in -/
+def f33W : World := wRun { api := f33JC } f33Hist
+
+/-- KNOWN FINDING F33 (replayed on the real reconciler by the jcstatus scenario
+`f33-job-never-observed-misses-lastScheduled`, monitor `lastScheduled-ge-any-job`): the unrestricted
+clause "lastScheduled is at least the schedule time of ANY of the JobConfig's Jobs, even after those
+Jobs are deleted" is FALSE for the controller as it is.  In `f33Hist` the Job `j2` (inside
+E-OwnerLabel, schedule time 1010) existed on the server and was deleted; at quiescence — every
+event delivered, the work queue empty, one more sync a no-op — `status.lastScheduled` is 1000;
+with no earlier Job it stays unset; the same after a controller restart (the deleted Job gets no
+notification in the new process).  Had a sync run while `j2` was cached (`f33HistObserved`), 1010
+would be recorded for ever (`maxima_cover_observed_partial`). -/
+theorem job_never_observed_witness :
+    f33W.quiet = true ∧ f33W.jobs = [f33J1] ∧ f33J2 ∈ f33W.ever ∧ wStep (wStep f33W .sync) .sync = f33W ∧
+    labelScheduleTime f33J2 = some 1010 ∧ onJobEvent .add [f33JC] f33J2 = some "nsa/jc0" ∧
+    f33W.api.status.lastScheduled = some 1000 ∧
+    (wRun { api := f33JC } [.create f33J2, .delete "j2", .deliver, .deliver, .sync, .sync]).api.status.lastScheduled = none ∧
+    (wRun { api := f33JC } [.create f33J2, .delete "j2", .restart, .sync, .sync]).api.status.lastScheduled = none ∧
+    (wRun { api := f33JC } [.create f33J2, .delete "j2", .restart, .sync, .sync]).quiet = true ∧
+    (wRun { api := f33JC } f33HistObserved).quiet = true ∧
+    (wRun { api := f33JC } f33HistObserved).api.status.lastScheduled = some 1010 := by
+  decide +kernel
+
+/-- `j2` is inside E-OwnerLabel: the finding does not lean on the label-without-owner corner -/
+example : OwnerLabel f33JC f33J2 := by
+  simp [OwnerLabel, f33JC, f33J2, witnessJC, witnessJob]
+
 /-! ## informer side: which key an event enqueues -/
 
 /-- inside E-OwnerLabel, every Job event (add, update, delete) enqueues the key of the owning
@@ -532,7 +652,7 @@ example : (computeStatus exJC (listJobs exCache exJC)) =
                      { uid := "u-c", name := "c", created := 30, phase := "Running", startTime := some 100 }],
       lastScheduled := some 700, lastExecuted := some 100 } := by decide
 
--- lastScheduled_ge_all / lastExecuted_ge_all: hypotheses satisfiable
+-- lastScheduled_ge_listed / lastExecuted_ge_listed: hypotheses satisfiable
 example : exJob "c" 30 (some 100) "Running" (some "700") ∈ listJobs exCache exJC ∧
     labelScheduleTime (exJob "c" 30 (some 100) "Running" (some "700")) = some 700 ∧ zeroUnix < 700 := by decide
 -- monotone with an old value above every Job: old value kept
